@@ -109,3 +109,17 @@ silent(P, "rot-reorder-independent-statements",
              "        s = qp.math.sin(theta / 2)\n        c = qp.math.cos(theta / 2)\n")])
 silent(P, "crot-handler-respelled",
        [(PS, "    return [(0.5, 1.0), (0.5, 1.0), (0.5, 1.0)]", "    return [(1.0, 0.5), (0.5, 1), (1 / 2, 1.0)]")])
+
+# --- R-C09-memo
+_PSH = "pennylane/gradients/parameter_shift.py"
+fire("C09", "generator-frequencies-memoised-per-type-and-size",
+     [(_PSH, "@parameter_frequencies.register\ndef _handle_operator2(op: Operator2):", "_GEN_FREQ_CACHE: dict = {}\n\n\n@parameter_frequencies.register\ndef _handle_operator2(op: Operator2):"),
+      (_PSH, "        # if the operator has a single parameter, we can query the\n        # generator, and if defined, use its eigenvalues.\n        try:\n            gen = generator(op, format=\"observable\")",
+             "        cache_key = (type(op), len(op.wires))\n        if cache_key in _GEN_FREQ_CACHE:\n            return [_GEN_FREQ_CACHE[cache_key]]\n        try:\n            gen = generator(op, format=\"observable\")"),
+      (_PSH, "        eigs = tuple(np.round(eigs, 8))\n        return [eigvals_to_frequencies(eigs)]", "        eigs = tuple(np.round(eigs, 8))\n        frequencies = eigvals_to_frequencies(eigs)\n        _GEN_FREQ_CACHE[cache_key] = frequencies\n        return [frequencies]")],
+     "R-C09-memo", "_handle_operator2")
+silent("C09", "generator-frequencies-memoised-under-the-operator-itself",
+       [(_PSH, "@parameter_frequencies.register\ndef _handle_operator2(op: Operator2):", "_GEN_FREQ_CACHE: dict = {}\n\n\n@parameter_frequencies.register\ndef _handle_operator2(op: Operator2):"),
+        (_PSH, "        # if the operator has a single parameter, we can query the\n        # generator, and if defined, use its eigenvalues.\n        try:\n            gen = generator(op, format=\"observable\")",
+               "        cache_key = op\n        if cache_key in _GEN_FREQ_CACHE:\n            return [_GEN_FREQ_CACHE[cache_key]]\n        try:\n            gen = generator(op, format=\"observable\")"),
+        (_PSH, "        eigs = tuple(np.round(eigs, 8))\n        return [eigvals_to_frequencies(eigs)]", "        eigs = tuple(np.round(eigs, 8))\n        frequencies = eigvals_to_frequencies(eigs)\n        _GEN_FREQ_CACHE[cache_key] = frequencies\n        return [frequencies]")])
